@@ -466,6 +466,48 @@ def dense_ref(sp, leaf_mat):
     raise ValueError(op)
 
 
+def opscale(sp, leaf_norm):
+    """Magnitude of the OPERANDS of a tree (never of the possibly-cancelling result): leaf -> ||M||_F,
+    product -> product, sum/difference/stack -> sum.  Tolerances of identities are taken relative to this."""
+    op = sp["op"]
+    if op not in COMBINATORS:
+        return float(leaf_norm(sp))
+    if op == "Compose":
+        out = 1.0
+        for o in sp["ops"]:
+            out *= opscale(o, leaf_norm)
+        return out
+    if op in ("Add", "Sub"):
+        return opscale(sp["a"], leaf_norm) + opscale(sp["b"], leaf_norm)
+    if op == "Scale":
+        return abs(cplx(sp["s"])) * opscale(sp["a"], leaf_norm)
+    if op in ("Neg", "Conj", "H", "HH"):
+        return opscale(sp["a"], leaf_norm)
+    return sum(opscale(o, leaf_norm) for o in sp["ops"])
+
+
+def tree_opscale(sp, dt):
+    """opscale with leaf norms from the implementation's own leaf matrices (0 if a leaf cannot be materialised)."""
+    cache = {}
+
+    def ln(leaf):
+        import json
+        k = json.dumps(leaf, sort_keys=True)
+        if k not in cache:
+            try:
+                o = build(leaf)
+                with warnings.catch_warnings():
+                    warnings.simplefilter("ignore")
+                    cache[k] = float(np.linalg.norm(mat(o, o.ishape, dt, real_only=True)[0]))
+            except Exception:
+                cache[k] = 0.0
+        return cache[k]
+    try:
+        return opscale(sp, ln)
+    except Exception:
+        return 0.0
+
+
 # ----------------------------------------------------------------------------
 # strategies
 
